@@ -849,9 +849,15 @@ class Generator(TreeListener):
             deps = ca.vertcat(*orig_deps)
             J = ca.Function("J", [deps], [ca.jacobian(s, deps)])
             J_sparsity = J.sparsity_out(0)
+            # Column range of every dependency in the Jacobian: a vector dependency spans
+            # as many columns as it has elements
+            stops = np.cumsum([dep.numel() for dep in orig_deps])
+            columns = [range(stop - dep.numel(), stop) for dep, stop in zip(orig_deps, stops)]
             der_deps = [
-                self.get_derivative(dep) if J_sparsity.has_nz(0, j) else ca.DM.zeros(dep.size())
-                for j, dep in enumerate(orig_deps)
+                self.get_derivative(dep)
+                if any(J_sparsity.has_nz(r, c) for r in range(J_sparsity.size1()) for c in cols)
+                else ca.DM.zeros(dep.size())
+                for dep, cols in zip(orig_deps, columns)
             ]
             return ca.mtimes(J(deps), ca.vertcat(*der_deps))
 
